@@ -25,6 +25,18 @@ CHECKS = {
                      "valueless tokens are recoverable from their type (dictionaries extracted from the tree, injectivity ASSUMEd and re-checked), "
                      "and every skipped character has its BAD_LEXEME diagnostic. Replay and trace validation bind the real Lexer to it.",
                 note="bounded alphabets/lengths; normalisation = splice removal, di/trigraph translation, tab expansion in block comments, read left to right"),
+    "C11": dict(ref="§4.11", tech="TLC enumeration of Literals.tla (C11 6.4.4 grammar + malformed families) run through the Lexer.tla machine, law ClassOK; replay of every behaviour",
+                text="TLC enumerates every literal of the valid families (written from the C grammar, all bases, first digits, suffix spellings, "
+                     "exponent forms, escapes, prefixes) and of the malformed families M1..M13 in their contexts, runs the tokenizer machine on "
+                     "each and evaluates ClassOK; departures of the transcribed implementation from the grammar are found inside the model. "
+                     "Every behaviour is replayed into the real Lexer and judged by the same law.",
+                note="digit strings and contexts bounded per level; don't-care shapes listed in DESIGN 4.11"),
+    "C12": dict(ref="§4.12", tech="TLC model checking of LexerRespell.tla (two machine instances, RespellInv over every faithful respelling) + paired replay",
+                text="Two instances of the tokenizer machine run on a plain text and on every faithful respelling of it (digraph/trigraph per "
+                     "character, none/one/two splices per token boundary); TLC checks that both produce the same (type, text) sequence for every "
+                     "plain text of three alphabets up to the bound. Every exported pair is replayed: the real Lexer must produce equal "
+                     "(type, value) sequences on both texts.",
+                note="bounded alphabets/lengths/number of non-plain choices; program-level part (diagnostics under brace/bracket respelling) is checked with the Norm corpus"),
 }
 
 NOT_YET = {
